@@ -67,6 +67,16 @@ def numeric_array(x, dtype=None, device=None):
         return np.array(x, dtype=dtype)
 
 
+def _as_index(data):
+    """
+    Convert boolean data of a ``Bint[2]``-valued tensor to integers, so that
+    indexing with it selects positions 0/1 rather than acting as a mask.
+    """
+    if str(data.dtype).endswith("bool"):
+        data = ops.astype(data, "int64")
+    return data
+
+
 def dummy_numeric_array(domain):
     value = 0.1 if domain.dtype == "real" else 1
     return ops.expand(numeric_array(value), domain.shape) if domain.shape else value
@@ -293,7 +303,7 @@ class Tensor(Funsor, metaclass=TensorMeta):
                     v_shape = [1] * total_size
                     for k2, size in zip(v.inputs, v.data.shape):
                         v_shape[new_dims[k2]] = size
-                    index.append(v.data.reshape(tuple(v_shape)))
+                    index.append(_as_index(v.data).reshape(tuple(v_shape)))
             else:
                 # Construct a [:] slice for this preserved input.
                 offset_from_right = -1 - new_dims[k]
@@ -850,6 +860,7 @@ def eager_getitem_tensor_tensor(op, lhs, rhs):
         inputs, lhs_data, rhs_data = lhs.inputs, lhs.data, rhs.data
     else:
         inputs, (lhs_data, rhs_data) = align_tensors(lhs, rhs)
+    rhs_data = _as_index(rhs_data)
     if len(lhs.output.shape) > 1:
         rhs_data = rhs_data.reshape(rhs_data.shape + (1,) * (len(lhs.output.shape) - 1))
 
